@@ -149,6 +149,8 @@ def run(ctx):
                     continue
                 cw = [U(s[1])[:60] for s in path if s[0] == "stmt" for w in writes_of(s[1])
                       if w.root == "self" and w.attr in ("_frequencies", "frequencies")]
+                # `self += x` inside an operator changes the contents through the sibling operator
+                cw += [U(s[1])[:60] for s in path if s[0] == "stmt" and isinstance(s[1], ast.AugAssign) and U(s[1].target) == "self"]
                 if not cw:
                     continue
                 n += 1
